@@ -46,6 +46,7 @@ type Options struct {
 	BAC      bool
 	Pace     []chipsim.PaceSpec // advertised (and supported) PACE protocols; empty = no PACE
 	ExtraPaceInfos []chipsim.PaceInfoSpec // advertised in EF.CardAccess only (unsupported entries for selection tests)
+	PaceInfoOrder  int64                  // != 0: seeds a permutation of the PACEInfo entries of EF.CardAccess (a SET: order carries no meaning)
 	OpenChip bool               // no access control required (files readable without BAC/PACE)
 	CA       []CASpec
 	AA       *AASpec
@@ -261,6 +262,11 @@ func New(o Options) (*Passport, error) {
 		paceInfos = append(paceInfos, chipsim.PaceInfoSpec{OID: ps.OID, ParamID: ps.ParamID})
 	}
 	paceInfos = append(paceInfos, o.ExtraPaceInfos...)
+	if o.PaceInfoOrder == 1 { // unsupported / extra entries first
+		paceInfos = append(append([]chipsim.PaceInfoSpec{}, o.ExtraPaceInfos...), paceInfos[:len(paceInfos)-len(o.ExtraPaceInfos)]...)
+	} else if o.PaceInfoOrder != 0 {
+		rand.New(rand.NewSource(o.PaceInfoOrder)).Shuffle(len(paceInfos), func(i, j int) { paceInfos[i], paceInfos[j] = paceInfos[j], paceInfos[i] })
+	}
 	camUsed := false
 	for _, ps := range o.Pace {
 		if isCam(ps.OID) {
